@@ -248,4 +248,33 @@ theorem conv_spec (fresh : Nat → α) (hinj : ∀ i j, fresh i = fresh j → i 
   · simp only [conv, convAsg]; rw [h3, hbn]
   · intro q; simp only [conv, convAsg]; rw [h4, hbe]
 
+theorem skip_prefix (fresh : Nat → α) (present : List α) : ∀ (f i : Nat),
+    i ≤ skip fresh present f i ∧ ∀ j, i ≤ j → j < skip fresh present f i → fresh j ∈ present := by
+  intro f
+  induction f with
+  | zero => intro i; exact ⟨Nat.le_refl _, fun j h1 h2 => by simp only [skip] at h2; omega⟩
+  | succ f ih =>
+    intro i
+    by_cases h : fresh i ∈ present
+    · have hs : skip fresh present (f + 1) i = skip fresh present f (i + 1) := by simp [skip, h]
+      rw [hs]
+      obtain ⟨h1, h2⟩ := ih (i + 1)
+      refine ⟨by omega, ?_⟩
+      intro j hj1 hj2
+      by_cases hj : j = i
+      · exact hj ▸ h
+      · exact h2 j (by omega) hj2
+    · have hs : skip fresh present (f + 1) i = i := by simp [skip, h]
+      rw [hs]
+      exact ⟨Nat.le_refl _, fun j h1 h2 => by omega⟩
+
+/-- the fuelled loop computes what the `while` loop of the code computes: the least index ≥ `i`
+    whose name is not present -/
+theorem skip_least (fresh : Nat → α) (hinj : ∀ i j, fresh i = fresh j → i = j) (present : List α)
+    (i : Nat) :
+    i ≤ skip fresh present (present.length + 1) i ∧
+    fresh (skip fresh present (present.length + 1) i) ∉ present ∧
+    ∀ j, i ≤ j → j < skip fresh present (present.length + 1) i → fresh j ∈ present :=
+  ⟨(skip_prefix fresh present _ i).1, skip_fresh fresh hinj present i, (skip_prefix fresh present _ i).2⟩
+
 end C10
